@@ -594,8 +594,9 @@ def impl_update(c):
     p = 1 if c["kind"] == "stat" else c["p"]
     A = g.normal(size=(n + k, p))
     A[20:] += 4.0
-    idx = {"range": pd.RangeIndex(n + k), "offset": pd.RangeIndex(100, 100 + n + k),
-           "datetime": pd.date_range("2021-01-01", periods=n + k, freq="h")}[c["index"]]
+    idx5 = {"range": pd.RangeIndex(n + k + 5), "offset": pd.RangeIndex(100, 100 + n + k + 5),
+            "datetime": pd.date_range("2021-01-01", periods=n + k + 5, freq="h")}[c["index"]]
+    idx = idx5[: n + k]
     full = pd.DataFrame(A, index=idx)
     if c["ov"] == "inside":  # the batch only re-supplies rows that are already remembered, with (much) larger values: no new label
         old = full
@@ -606,7 +607,21 @@ def impl_update(c):
         new = full.iloc[n - c["ov"]:].copy()
         new.iloc[: c["ov"]] += 0.5  # re-supplied rows carry new values: they must replace the old ones
     try:
-        det = mk_det(c["kind"], {"scale": c["scale"], "m": c["m"]}).fit(old).update(new)
+        det = mk_det(c["kind"], {"scale": c["scale"], "m": c["m"]}).fit(old)
+        rejected = None
+        if core._bits(c, 2, 3) == 0 and c["ov"] != "inside":  # (a missing value in a re-supplied row means "keep the remembered value")
+            # a batch with a missing value in a new row is rejected first: it must not be remembered, and the valid batch that follows
+            # must be accepted and give the fit on old + new
+            bad = pd.DataFrame(g.normal(size=(5, p)), index=idx5[n + k:])  # five rows later than everything else
+            bad.iloc[2, 0] = np.nan
+            try:
+                det.update(bad)
+                rejected = "accepted"
+            except ValueError:
+                rejected = "ValueError"
+            except Exception as ex:
+                rejected = type(ex).__name__
+        det.update(new)
         comb = union_frames(old, new)
         ref = mk_det(c["kind"], {"scale": c["scale"], "m": c["m"]}).fit(comb)
         fa = {a: float(getattr(det, a)) for a in vars(det) if a.endswith("_") and not a.startswith("_") and np.isscalar(getattr(det, a))}
@@ -614,14 +629,17 @@ def impl_update(c):
         test = full.iloc[5:35]
         ya, yb = det.predict(test), ref.predict(test)
         return {"outcome": "ok", "fitted": fa, "fitted_ref": fb, "same_pred": frame_sig(ya) == frame_sig(yb),
-                "rows": int(len(det._X)), "rows_ref": int(len(comb))}
+                "rows": int(len(det._X)), "rows_ref": int(len(comb)), "rejected": rejected}
     except Exception as ex:
         return {"outcome": "other:" + type(ex).__name__, "msg": str(ex)[:200]}
 
 
 def oracle_update(c, r):
     if r["outcome"] != "ok":
-        return f"{c['kind']}: fit + update raised {r['outcome']} {r.get('msg', '')}"
+        return (f"{c['kind']}: fit + update raised {r['outcome']} {r.get('msg', '')}"
+                + (" (after an earlier batch with a missing value had been rejected)" if core._bits(c, 2, 3) == 0 and c["ov"] != "inside" else ""))
+    if r.get("rejected") not in (None, "ValueError"):
+        return f"{c['kind']}: update with a batch that contains a missing value: {r['rejected']} instead of ValueError"
     if r["fitted"] != r["fitted_ref"] or not r["same_pred"]:
         return (f"{c['kind']}: fit(old).update(new) with {c['ov']} overlapping rows ({c['index']} index) differs from fit on the combined data: "
                 f"fitted {r['fitted']} vs {r['fitted_ref']}, remembered rows {r['rows']} vs {r['rows_ref']}")
